@@ -9,3 +9,6 @@ import XmppVerif.Props.C20
 import XmppVerif.Drv.C20
 import XmppVerif.Props.C15
 import XmppVerif.Drv.C15
+import XmppVerif.Tie.C15
+import XmppVerif.Tie.C19
+import XmppVerif.Tie.C20
